@@ -80,6 +80,23 @@ pub struct InflateState {
     /// TODO: This should be stored in the decompressor.
     data_format: DataFormat,
     last_status: TINFLStatus,
+
+    /// Verification hook: `[in_len, out_pos, out_len, flags, status, in_bytes, out_bytes]` of every
+    /// inner `decompress` call.
+    #[cfg(all(miniz_oxide_verif, feature = "with-alloc"))]
+    verif_core_trace: crate::alloc::vec::Vec<[i64; 7]>,
+}
+
+#[cfg(all(miniz_oxide_verif, feature = "with-alloc"))]
+impl InflateState {
+    /// Verification hook: take the inner-call records since the last call.
+    pub fn verif_take_core_trace(&mut self) -> crate::alloc::vec::Vec<[i64; 7]> {
+        mem::take(&mut self.verif_core_trace)
+    }
+    /// Verification hook: `[dict_ofs, dict_avail, first_call, has_flushed, last_status]`.
+    pub fn verif_snapshot(&self) -> [i64; 5] {
+        [self.dict_ofs as i64, self.dict_avail as i64, self.first_call as i64, self.has_flushed as i64, self.last_status as i64]
+    }
 }
 
 impl Default for InflateState {
@@ -93,6 +110,8 @@ impl Default for InflateState {
             has_flushed: false,
             data_format: DataFormat::Raw,
             last_status: TINFLStatus::NeedsMoreInput,
+            #[cfg(all(miniz_oxide_verif, feature = "with-alloc"))]
+            verif_core_trace: crate::alloc::vec::Vec::new(),
         }
     }
 }
@@ -231,6 +250,16 @@ pub fn inflate(
         // so we can simply write directly to the output buffer.
         // If there is not enough space for all of the decompressed data we will end up with a failure regardless.
         let status = decompress(&mut state.decomp, next_in, next_out, 0, decomp_flags);
+        #[cfg(all(miniz_oxide_verif, feature = "with-alloc"))]
+        state.verif_core_trace.push([
+            next_in.len() as i64,
+            0,
+            next_out.len() as i64,
+            decomp_flags as i64,
+            status.0 as i64,
+            status.1 as i64,
+            status.2 as i64,
+        ]);
         let in_bytes = status.1;
         let out_bytes = status.2;
         let status = status.0;
@@ -312,6 +341,16 @@ fn inflate_loop(
             state.dict_ofs,
             decomp_flags,
         );
+        #[cfg(all(miniz_oxide_verif, feature = "with-alloc"))]
+        state.verif_core_trace.push([
+            next_in.len() as i64,
+            state.dict_ofs as i64,
+            TINFL_LZ_DICT_SIZE as i64,
+            decomp_flags as i64,
+            status.0 as i64,
+            status.1 as i64,
+            status.2 as i64,
+        ]);
 
         let in_bytes = status.1;
         let out_bytes = status.2;
